@@ -12,7 +12,7 @@ import (
 // Move is one raw iterator positioning call.
 type Move struct {
 	M   string `json:"m"` // SeekToFirst | SeekToLast | Seek | SeekForPrev | Next | Prev
-	Key B      `json:"key,omitempty"`
+	Key B      `json:"key"`
 }
 
 // Read is one read check.
@@ -44,16 +44,17 @@ type Step struct {
 
 // SeqParams are the per-sequence generator parameters (part of every witness).
 type SeqParams struct {
-	Seed       int64  `json:"seed"`
-	Index      int    `json:"index"`
-	Hazard     bool   `json:"order_hazard"` // batches may contain order-dependent pairs (put→delrange, delete→merge)
-	NulExt     bool   `json:"nul_extended_keys"` // the key universe may hold k and k+"\x00"+... together
-	EmptyKey   bool   `json:"empty_key"`
-	BigValues  bool   `json:"big_values"`
-	SmallMemtb bool   `json:"small_memtable"`
-	WAL        bool   `json:"wal"`
-	Prefix     B      `json:"prefix"`
-	Note       string `json:"note,omitempty"`
+	Seed         int64  `json:"seed"`
+	Index        int    `json:"index"`
+	Hazard       bool   `json:"order_hazard"`         // batches may contain order-dependent pairs (put→delrange, delete→merge)
+	NulExt       bool   `json:"nul_extended_keys"`    // the key universe may hold k and k+"\x00"+... together
+	EmptyStartDR bool   `json:"empty_start_delrange"` // DeleteRange may start at the empty key
+	EmptyKey     bool   `json:"empty_key"`
+	BigValues    bool   `json:"big_values"`
+	SmallMemtb   bool   `json:"small_memtable"`
+	WAL          bool   `json:"wal"`
+	Prefix       B      `json:"prefix"`
+	Note         string `json:"note,omitempty"`
 }
 
 type Sequence struct {
@@ -318,6 +319,15 @@ func (g *gen) batchOps() []Op {
 			if bytes.Compare(s, e) > 0 {
 				s, e = e, s
 			}
+			if len(s) == 0 && !g.p.EmptyStartDR {
+				// pebble loses a range tombstone that starts at the empty key when it
+				// compacts (deleted keys come back); keep that input class to the
+				// sequences flagged for it
+				s = []byte{0}
+				if bytes.Compare(s, e) > 0 {
+					e = s
+				}
+			}
 			if !g.p.Hazard {
 				bad := false
 				for w := range written {
@@ -532,6 +542,7 @@ func genSequence(seed int64, index int, itersPerPhase int) *Sequence {
 	p := SeqParams{Seed: seed, Index: index}
 	p.Hazard = index%5 == 4
 	p.NulExt = index%3 == 0
+	p.EmptyStartDR = index%11 == 6
 	p.EmptyKey = index%7 == 3
 	p.BigValues = index%4 == 1
 	// the pebble version in go.mod cannot flush a memtable that holds the empty
